@@ -445,10 +445,12 @@ func rpcRefreshContract(ctx context.Context, t TransportClient, tp TxPool, signe
 		signer.ReleaseInputs([]types.V2Transaction{renewalTxn})
 		return RPCRefreshContractResult{}, clientErrf("invalid host contract signature")
 	}
+	// return the contract that was signed, not the object the host sent back
+	renewal.NewContract.HostSignature = hostRenewal.NewContract.HostSignature
 	return RPCRefreshContractResult{
 		Contract: ContractRevision{
 			ID:       params.ContractID.V2RenewalID(),
-			Revision: hostRenewal.NewContract,
+			Revision: renewal.NewContract,
 		},
 		RenewalSet: TransactionSet{
 			Basis:        hostTransactionSetResp.Basis,
@@ -1319,10 +1321,12 @@ func RPCRenewContract(ctx context.Context, t TransportClient, tp TxPool, signer 
 		signer.ReleaseInputs([]types.V2Transaction{renewalTxn})
 		return RPCRenewContractResult{}, clientErrf("invalid host contract signature")
 	}
+	// return the contract that was signed, not the object the host sent back
+	renewal.NewContract.HostSignature = hostRenewal.NewContract.HostSignature
 	return RPCRenewContractResult{
 		Contract: ContractRevision{
 			ID:       params.ContractID.V2RenewalID(),
-			Revision: hostRenewal.NewContract,
+			Revision: renewal.NewContract,
 		},
 		RenewalSet: TransactionSet{
 			Basis:        hostTransactionSetResp.Basis,
